@@ -18,9 +18,12 @@ def chk(pid, level, text, note, technique, ref, engine="fstsim"):
         "technique": technique,
     }
 
+TWO = (" Every Engine A check runs twice: library compiled with debug assertions and overflow checks on (all run indices) and with both off (a quarter of them; all for C13/C14). "
+       "A failure that does not reproduce alone in a fresh process is replayed with the minimised list of run indices that preceded it in its thread (state kept by the code under test between uses).")
+
 TB_A = ("Trusted: the simulated file (SimSink) as a model of what io::Write permits; the harness reference models "
         "(ordered map, ordering contract, bitwise CRC-32C with RFC 3720 known answers); seeded sampling, so a clean batch is evidence, not proof. "
-        "Real code under test: the fst builders, CountingWriter, CRC, node encoders, registry, readers, std BufWriter/write_all.")
+        "Real code under test: the fst builders, CountingWriter, CRC, node encoders, registry, readers, std BufWriter/write_all." + TWO)
 
 checks = [
     chk("C01", "exploration",
@@ -31,7 +34,7 @@ checks = [
     chk("C06", "exploration",
         "History checking of the stateful builder API against an ordering-contract reference model, call by call (variant and payload of every result), observed together with the sink: "
         "a rejected call must cause zero writer calls and leave bytes_written unchanged; bulk calls must stop pulling at the rejected item; final bytes must equal a clean rebuild of exactly the accepted sequence. "
-        "All histories of length <= 5 (6 thorough) over a 5-key universe are enumerated for 12 front-end variants (map/set/raw single calls, raw add, extend_iter, extend_stream, Set/Map::from_iter, Fst::from_iter_set/map); random histories up to 200 calls with 0-60% illegal calls, 1/16 of them with keys longer than 1 KiB; nine worlds around ONE accepted key of 64 KiB .. 1 MiB (+-1) with the calls that must be refused right after it.",
+        "All histories of length <= 5 (6 thorough) over a 5-key universe are enumerated for 12 front-end variants (map/set/raw single calls, raw add, extend_iter, extend_stream, Set/Map::from_iter, Fst::from_iter_set/map); random histories up to 200 calls with 0-60% illegal calls, 1/16 of them with keys longer than 1 KiB; nine worlds around ONE accepted key of 64 KiB .. 1 MiB (+-1) with the calls that must be refused right after it; from_iter fed by iterators with four size-hint behaviours (nothing, exact, usize::MAX, 'empty').",
         TB_A, "deterministic simulation: call-history checking against a contract model with sink-event observation; exhaustive small scope + seeded random histories", "DESIGN.md §5 C06"),
     chk("C07", "fault_enumeration",
         "Benign-fault simulation of the io::Write sink: per workload (incl. ones with a 33..256-way node and its 256-byte index) every fixed cap 1..16 and every position of a single short write (1 and len-1 bytes), of a single Interrupted and of a burst of 9/17/33 Interrupted are enumerated; "
@@ -49,12 +52,12 @@ checks = [
         TB_A + " The simulated caller stops at the first Err(Io).", "deterministic simulation with fault injection: enumeration of the failing sink call x error kind x stickiness x layering", "DESIGN.md §5 C11"),
     chk("C13", "exploration",
         "Streaming builds of 1e4..3e6 (thorough 3e7) keys with bounded fan-out and key length and almost no node sharing (fixed-length keys, prefix pairs, leaf fans of distinct 33..64-way nodes, strictly decreasing values), under a counting global allocator, for sets and maps, several cache geometries and sink acceptance shapes; "
-        "plus bulk calls (one extend_iter / extend_stream over 4e5 items), runs of 150 000 repeats of one key, one uninterrupted run of 1e5 refused inserts half way, sectioned streams (a vocabulary of tails found in the cache again and again, then displaced), keys of 65..1000 bytes, and single builders that emit > 64 MiB and > 110 MiB; live requested heap is checked against a bound computed from (measured constructor allocation, geometry, fan-out, key length) at every 1000th insert; growth over the last nine tenths is reported. Builder errors in these runs are recorded, not judged (C06/C01/C11 judge them).",
+        "plus bulk calls (one extend_iter / extend_stream over 4e5 items), runs of 150 000 repeats of one key, one uninterrupted run of 1e5 refused inserts half way, sectioned streams (a vocabulary of tails found in the cache again and again, then displaced), keys of 65..1000 bytes, single builders that emit > 64 MiB and > 110 MiB, and a builder handed back and forth between two long-lived threads (heap summed over both); live requested heap is checked against a bound computed from (measured constructor allocation, geometry, fan-out, key length) at every 1000th insert; growth over the last nine tenths is reported. Builder errors in these runs are recorded, not judged (C06/C01/C11 judge them).",
         "Trusted: the counting allocator (requested bytes of the building thread) and the arithmetic bound derived from struct sizes on a 64-bit target. Asymptotic claim checked at finitely many scales.",
         "deterministic simulation: allocator seam (counting global allocator) with invariant checkpoints during streamed builds", "DESIGN.md §5 C13"),
     chk("C14", "exploration",
         "For key families at two sizes (1e3 vs 1e5/1e6; thorough 5e6) the peak requested heap of stream/keys/values/range/search (4 automata)/set operations over k=2,4,8 inputs, mixed stream kinds and tiny/disjoint companion FSTs is measured under the counting allocator; "
-        "operands whose key ranges do not interleave (segments), it must stay under a bound in (k, key length) and must not grow with N beyond one doubling step; open + 5000 look-ups on borrowed bytes (also as a version-2 file, also more than 2^20 look-ups on one opened object, also in a fresh process whose first contact with the library is opening bytes another process built) must allocate nothing.",
+        "operands whose key ranges do not interleave (segments), operands handed over through Extend/FromIterator from a filter iterator, it must stay under a bound in (k, key length) and must not grow with N beyond one doubling step; open + 5000 look-ups on borrowed bytes (also as a version-2 file, also more than 2^20 look-ups on one opened object, also in a fresh process whose first contact with the library is opening bytes another process built) must allocate nothing.",
         "Trusted: the counting allocator; per-item allocate-and-free is not judged (the property is about heap held).",
         "deterministic simulation: allocator seam (counting global allocator) around traversals at two scales", "DESIGN.md §5 C14"),
     chk("C15", "exploration",
@@ -64,11 +67,11 @@ checks = [
         "deterministic simulation: seeded call-level scheduler over multiple builder tasks + cross-process re-execution", "DESIGN.md §5 C15"),
     chk("C20", "fault_enumeration",
         "Crash-restart simulation: a build is cut at every sink event (durable prefix, torn in-flight write of several lengths, lost BufWriter buffer); survivors, corrupted artifacts, boundary header/footer strings (root address/len/version boundary values, lengths 0..64), bytes whose checksum was recomputed over garbage, and random strings are reopened "
-        "through Fst/Map/Set::new over &[u8], Vec and Cow, then every metadata accessor, verify and map_data (also with a closure that returns other bytes) run under catch_unwind with overflow checks on. Also 464 openable files of round sizes (2^k+d, k=12..23; m MiB+d) with wrong and recomputed checksum, one artifact above 1 MiB with every footer field at boundary values, node-shaped garbage. The 'no unsafe code' clause is a compile of the library with -F unsafe_code in both profiles (debug and --release, with the levenshtein feature) plus a token scan of src/**/*.rs for the keyword (all cfg branches and macro bodies); a lint, reported as such.",
+        "through Fst/Map/Set::new over &[u8], Vec and Cow, then every metadata accessor, verify and map_data (also with a closure that returns other bytes) run under catch_unwind with overflow checks on. Also 464 openable files of round sizes (2^k+d, k=12..23; m MiB+d) with wrong and recomputed checksum, one artifact above 1 MiB with every footer field at boundary values, node-shaped garbage; files of 4 MiB and more are also opened and verified in child processes on a 256 KiB-stack thread and with the address space capped (failing allocation / thread creation as the injected fault). The 'no unsafe code' clause is a compile of the library with -F unsafe_code in both profiles (debug and --release, with the levenshtein feature) plus a token scan of src/**/*.rs for the keyword (all cfg branches and macro bodies); a lint, reported as such.",
         TB_A + " Queries on garbage are deliberately not called (the property allows them to panic).",
         "deterministic simulation with fault injection: crash at every sink event + at-rest corruption, restart through the real open/verify path; plus a compile-time unsafe lint", "DESIGN.md §5 C20"),
     chk("C19", "exploration",
-        "The real fst-bin map/set commands (argument parsing, Merger, batcher, Sorters, KvBatch, UnionBatch, temp files, mmap) run under a seeded scheduler that owns every thread spawn and channel operation; inputs (incl. the empty key, files without trailing newline, CR at EOF, empty files, the same file listed twice, FIFOs instead of regular files, a stale longer file at the output path) x batch size x fd limit x threads x merge mode x schedule are sampled; a fault-injecting configuration starves file descriptors from a chosen batch on (the command may fail, it must not report success with a wrong result). "
+        "The real fst-bin map/set commands (argument parsing, Merger, batcher, Sorters, KvBatch, UnionBatch, temp files, mmap) run under a seeded scheduler that owns every thread spawn and channel operation; inputs (incl. the empty key, files without trailing newline, CR at EOF, empty files, the same file listed twice, FIFOs instead of regular files, CRLF line ends, values with leading zeros and above 2^53, a stale longer file at the output path) x batch size x fd limit x threads x merge mode x schedule are sampled; a fault-injecting configuration starves file descriptors from a chosen batch on (the command may fail, it must not report success with a wrong result). "
         "Oracles: command returns Ok, output verifies, content equals a multiset-merge model, bytes equal a sorted library build when keys do not repeat, and all outputs for one input and mode are byte-identical across configurations and schedules; no deadlock, bounded steps.",
         "Trusted: shuttle 0.9.3 as coroutine runtime; our bounded-channel shim standing in for crossbeam-channel (rendezvous, capacity 1, disconnect semantics); the multiset-merge model. Real: fst-bin app.rs, cmd/map.rs, cmd/set.rs, merge.rs, util.rs, the fst library, the filesystem (tmpfs), memmap2.",
         "deterministic simulation: seeded thread scheduler (shuttle runtime, own Scheduler) over the real CLI merge pipeline x configuration knobs", "DESIGN.md §5 C19", engine="binsim"),
